@@ -2491,3 +2491,65 @@ mod tests {
         assert_eq!(boundary, Some(value + GROUP_DATA_CTR_EPOCH));
     }
 }
+
+#[cfg(feature = "verif")]
+impl Session {
+    /// Verification hook: a plain-data copy of this session.
+    pub fn verif_snap(&self) -> crate::verif::SessionSnap {
+        use crate::transport::exchange::{InitiatorState, ResponderState, Role};
+        use crate::verif::{ExchSnap, SessionSnap};
+
+        let mut dec_key = [0; 16];
+        dec_key.copy_from_slice(self.dec_key.reference().access());
+        let mut enc_key = [0; 16];
+        enc_key.copy_from_slice(self.enc_key.reference().access());
+
+        SessionSnap {
+            id: self.id,
+            local_sess_id: self.local_sess_id,
+            peer_sess_id: self.peer_sess_id,
+            peer_addr: self.peer_addr,
+            local_nodeid: self.local_nodeid,
+            peer_nodeid: self.peer_nodeid,
+            mode: self.mode.clone(),
+            msg_ctr: self.msg_ctr,
+            rx_max_ctr: self.rx_ctr_state.verif_parts().0,
+            rx_bitmap: self.rx_ctr_state.verif_parts().1,
+            expired: self.expired,
+            reserved: self.reserved,
+            last_use: self.last_use.as_ticks(),
+            dec_key,
+            enc_key,
+            exchanges: self
+                .exchanges
+                .iter()
+                .enumerate()
+                .filter_map(|(index, exch)| {
+                    exch.as_ref().map(|exch| ExchSnap {
+                        index,
+                        exch_id: exch.exch_id,
+                        initiator: matches!(exch.role, Role::Initiator(_)),
+                        state: match exch.role {
+                            Role::Initiator(InitiatorState::Owned)
+                            | Role::Responder(ResponderState::Owned) => 0,
+                            Role::Responder(ResponderState::AcceptPending) => 1,
+                            Role::Initiator(InitiatorState::Dropped)
+                            | Role::Responder(ResponderState::Dropped) => 2,
+                        },
+                        retrans: exch.mrp.retrans.as_ref().map(|r| r.verif_parts()),
+                        ack: exch.mrp.ack.as_ref().map(|a| (a.msg_ctr, a.acknowledged)),
+                        received_at: exch.mrp.received_at.map(|i| i.as_ticks()),
+                    })
+                })
+                .collect(),
+        }
+    }
+}
+
+#[cfg(feature = "verif")]
+impl Sessions {
+    /// Verification hook: a plain-data copy of the session table.
+    pub fn verif_snap(&self) -> std::vec::Vec<crate::verif::SessionSnap> {
+        self.sessions.iter().map(Session::verif_snap).collect()
+    }
+}
